@@ -97,3 +97,86 @@ def generate(seed, n, features=None, prefix="j", force=()):
             raise ValueError("features outside the Java slice: %s" % sorted(bad))
         out.append(to_java_slice(g.program("%s%d_%d" % (prefix, seed, i))))
     return out
+
+
+# ---- hand-built probes: one per admitted feature, plus the boundary of the family ----
+def fixed_programs():
+    from fixedprogs import prog, gvar, stmt, pr, iff, block
+    from progen import lit, prim, var, SI, BI, BOOL, STR, UNIT
+    S = lambda s: {"e": "str", "s": s}            # noqa: E731
+    T, F = {"e": "bool", "b": True}, {"e": "bool", "b": False}
+    LSI = ["list", SI]
+    out = []
+    # machine integers at the edge of 32 bits without leaving them; truncating division; big integers beyond 64 bits
+    out.append(prog("J1_arith", [
+        gvar("a", SI, lit(SI, 2147483647)), gvar("b", SI, prim("si.sub", prim("si.neg", var("a")), lit(SI, 1))),
+        stmt(pr(var("a"), S(" "), var("b"), S(" "), prim("si.add", var("a"), var("b")))),
+        stmt(pr(prim("si.quo", lit(SI, -17), lit(SI, 5)), S(" "), prim("si.rem", lit(SI, -17), lit(SI, 5)), S(" "),
+                prim("si.mod", lit(SI, -17), lit(SI, 5)), S(" "), prim("si.quo", var("b"), lit(SI, -7)))),
+        gvar("z", BI, prim("bi.mul", prim("si.tobi", var("a")), lit(BI, 2**64 + 1))),
+        stmt(pr(var("z"), S(" "), prim("bi.pow", lit(BI, -3), lit(SI, 9)), S(" "), prim("bi.quo", var("z"), lit(BI, -10**20)), S(" "),
+                prim("bi.rem", var("z"), lit(BI, -10**20)), S(" "), prim("bi.mod", prim("bi.neg", var("z")), lit(BI, 1000)))),
+        stmt(pr(iff(prim("bi.lt", var("z"), lit(BI, 2**100)), S("lt"), S("ge"), STR), S(" "),
+                iff({"e": "and", "a": prim("si.le", var("b"), var("a")), "b": prim("bool.not", prim("si.eq", var("a"), var("b")))},
+                    lit(SI, 1), lit(SI, 0), SI)))]))
+    out.append(prog("J2_list", [
+        gvar("l", LSI, {"e": "list", "t": LSI, "args": [lit(SI, 3), lit(SI, -4), lit(SI, 5)]}),
+        gvar("e", LSI, {"e": "list", "t": LSI, "args": []}),
+        gvar("m", LSI, {"e": "cons", "t": LSI, "h": {"e": "len", "l": var("l")}, "tl": {"e": "rest", "l": var("l")}}),
+        stmt(pr({"e": "first", "l": var("m")}, S(" "), {"e": "len", "l": var("m")}, S(" "), {"e": "len", "l": var("e")}, S(" "),
+                iff({"e": "empty", "l": var("e")}, S("empty"), S("full"), STR))),
+        stmt({"e": "forin", "x": "x", "src": var("m"), "et": SI, "body": block(pr(var("x"), S(";")))}),
+        stmt({"e": "asg", "x": "l", "v": {"e": "list", "t": LSI, "args": [iff(T, lit(SI, 1), lit(SI, 2), SI)]}}),
+        stmt(pr({"e": "first", "l": var("l")}))]))
+    out.append(prog("J3_record", [
+        gvar("r", ["rec", 0], {"e": "mkrec", "t": ["rec", 0], "args": [lit(SI, 7), lit(BI, -10**30), S("s_\"t")]}),
+        stmt({"e": "rset", "r": var("r"), "i": 1, "v": prim("si.mul", {"e": "rget", "r": var("r"), "i": 1, "rt": 0}, lit(SI, -6)), "rt": 0}),
+        stmt({"e": "rset", "r": var("r"), "i": 3, "v": S("new"), "rt": 0}),
+        gvar("q", ["rec", 0], var("r")),
+        stmt({"e": "rset", "r": var("q"), "i": 2, "v": lit(BI, 5), "rt": 0}),
+        stmt(pr({"e": "rget", "r": var("r"), "i": 1, "rt": 0}, S(" "), {"e": "rget", "r": var("r"), "i": 2, "rt": 0}, S(" "),
+                {"e": "rget", "r": var("r"), "i": 3, "rt": 0}))], recs=[[SI, BI, STR]]))
+    FN = ["fn", [SI], SI]
+    mk = {"name": "mk", "ps": ["s"], "pts": [SI], "rt": FN, "pure": False,
+          "body": {"e": "let", "x": "n", "t": SI, "v": var("s"), "body":
+                   {"e": "lam", "ps": ["d"], "pts": [SI], "rt": SI,
+                    "body": {"e": "seq", "t": SI, "es": [{"e": "asg", "x": "n", "v": prim("si.add", var("n"), var("d"))}, var("n")]}}}}
+    out.append(prog("J4_closure", [
+        gvar("c1", FN, {"e": "call", "fi": 1, "args": [lit(SI, 10)]}),
+        gvar("c2", FN, {"e": "call", "fi": 1, "args": [lit(SI, -10)]}),
+        stmt(pr({"e": "callv", "f": var("c1"), "args": [lit(SI, 1)]})),
+        stmt(pr({"e": "callv", "f": var("c1"), "args": [lit(SI, 2)]})),
+        stmt(pr({"e": "callv", "f": var("c2"), "args": [lit(SI, 5)]})),
+        stmt(pr({"e": "callv", "f": var("c1"), "args": [lit(SI, 0)]}))], funs=[mk]))
+    loop = {"name": "lp", "ps": ["n"], "pts": [SI], "rt": SI, "pure": False,
+            "body": {"e": "let", "x": "w", "t": SI, "v": lit(SI, 0), "body": {"e": "let", "x": "acc", "t": SI, "v": lit(SI, 0), "body": {
+                "e": "seq", "t": SI, "es": [
+                    {"e": "while", "c": prim("si.lt", var("w"), var("n")), "body": block(
+                        {"e": "asg", "x": "w", "v": prim("si.add", var("w"), lit(SI, 1))},
+                        iff(prim("si.eq", prim("si.rem", var("w"), lit(SI, 3)), lit(SI, 0)), {"e": "iterate"}, {"e": "unit"}, UNIT),
+                        iff(prim("si.gt", var("w"), lit(SI, 7)), {"e": "break"}, {"e": "unit"}, UNIT),
+                        {"e": "asg", "x": "acc", "v": prim("si.add", var("acc"), var("w"))})},
+                    {"e": "for", "x": "i", "lo": lit(SI, -1), "hi": lit(SI, 2), "body": block(
+                        {"e": "asg", "x": "acc", "v": prim("si.add", prim("si.mul", var("acc"), lit(SI, 2)), var("i"))})},
+                    {"e": "seq", "t": SI, "es": [{"e": "exit", "c": prim("si.lt", var("acc"), lit(SI, 0)), "v": lit(SI, -1)},
+                                                   {"e": "exit", "c": prim("si.gt", var("acc"), lit(SI, 100)), "v": var("acc")},
+                                                   lit(SI, 0)]}]}}}}
+    out.append(prog("J5_loops", [stmt(pr({"e": "call", "fi": 1, "args": [lit(SI, 20)]}, S(" "), {"e": "call", "fi": 1, "args": [lit(SI, 0)]}))],
+                    funs=[dict(loop, pure=True)]))
+    fact = {"name": "fact", "ps": ["n"], "pts": [SI], "rt": BI, "pure": True, "fuel": True,
+            "body": iff(prim("si.le", var("n"), lit(SI, 0)), lit(BI, 1),
+                        prim("bi.mul", prim("si.tobi", var("n")), {"e": "call", "fi": 1, "args": [prim("si.sub", var("n"), lit(SI, 1))]}), BI)}
+    out.append(prog("J6_recursion", [stmt(pr({"e": "call", "fi": 1, "args": [lit(SI, 25)]})),
+                                     stmt(pr({"e": "call", "fi": 1, "args": [lit(SI, 0)]}))], funs=[fact]))
+    hf = {"name": "hf", "ps": ["n"], "pts": [SI], "rt": SI, "pure": False,
+          "body": {"e": "seq", "t": SI, "es": [pr(S("in "), var("n")),
+                                                 iff(prim("si.gt", var("n"), lit(SI, 1)), {"e": "error", "msg": "halt42"}, {"e": "unit"}, UNIT),
+                                                 prim("si.add", var("n"), lit(SI, 1))]}}
+    out.append(prog("J7_halt", [gvar("a", SI, {"e": "call", "fi": 1, "args": [lit(SI, 0)]}), stmt(pr(var("a"))),
+                                gvar("b", SI, {"e": "call", "fi": 1, "args": [lit(SI, 2)]}), stmt(pr(S("not reached")))], funs=[hf]))
+    out.append(prog("J8_strings", [gvar("s", STR, S("a\"b_c %~")), stmt(pr(var("s"), S("|"), S(""), S("|"), S(" , +-"))),
+                                   stmt(pr(iff(F, var("s"), S("Z0"), STR)))]))
+    # outside the family: the result depends on the width of the machine integer
+    out.append(prog("X_width_add", [gvar("a", SI, lit(SI, 2147483647)), stmt(pr(prim("si.add", var("a"), lit(SI, 1))))]))
+    out.append(prog("X_width_mul", [gvar("a", SI, lit(SI, 65536)), stmt(pr(prim("si.tobi", prim("si.mul", var("a"), var("a")))))]))
+    return [to_java_slice(p) for p in out]
